@@ -580,6 +580,18 @@ class World:
             raise InfraError("a node without candidates built a circuit")
         self.count("wanting_node")
 
+    def make_swarm_wanting(self, lab):
+        """the node is member of a swarm of its own but knows no candidate: every HiddenTunnelCommunity.do_circuits round
+        fails to build the swarm's circuit (the sweep must run all the same)"""
+        ov = self.ov(lab)
+        ov.candidates.clear()
+        try:
+            ov.join_swarm(b"w" * 20, 1)
+            ov.do_circuits()
+        except Exception as e:
+            self.count("swarm_wanting:raised:" + type(e).__name__)
+        self.count("swarm_wanting_node")
+
     def leave_swarm(self, lab, info_hash):
         self.api[lab] = True
         try:
@@ -1149,9 +1161,16 @@ async def run_join_limit(world: World, spec):
     n_relayed = spec.get("relayed", 0)
     # a few real multi-hop circuits through node 2 first (relay entries count twice)
     real = []
-    for _ in range(n_relayed):
-        real.append(world.create_circuit(1, 2, required_exit=None))
-        await asyncio.sleep(4 / TPS)
+    if n_relayed:
+        # real 2-hop circuits THROUGH the target (its relay entries count twice): the exit is fixed to node 3 / 4, the
+        # first hop is the originator's least used relay - repeat until the target relays `n_relayed` of them
+        exits = [p for p in world.ov(1).candidates if world.label_key(p.public_key.key_to_bin()) in (3, 4)]
+        for attempt in range(4 * n_relayed):
+            if len(world.ov(2).relay_from_to) >= 2 * n_relayed:
+                break
+            real.append(world.create_circuit(1, 2, required_exit=exits[attempt % len(exits)] if exits else None))
+            await asyncio.sleep(8 / TPS)
+        world.count("join:relay_entries_on_target", len(world.ov(2).relay_from_to))
     over = spec.get("over", 5)
     total = limit + over
     for k in range(total):
@@ -1248,6 +1267,9 @@ async def run_swarm(world: World, spec):
     await asyncio.sleep(spec["leave_after"] / TPS)
     world.count(f"swarm:leave:ready_state={ready.state}:building_state={building.state}:"
                 f"destroys_{'lost' if spec.get('lose_destroys') else 'delivered'}")
+    if spec.get("members_wanting"):
+        for lab in range(2, world.n + 1):
+            world.make_swarm_wanting(lab)
     if spec.get("lose_destroys"):
         # nobody hears of the teardown: the introduction point's exit socket has to be reclaimed by its own do_remove
         world.faults.append(Fault("drop", ["destroy"]))
@@ -1274,6 +1296,46 @@ async def run_swarm(world: World, spec):
         cp += TPS
     info["final"] = world.tables_empty()
     return True, info
+
+
+async def run_rendezvous(world: World, spec):
+    """two circuits of node 1 end at the same HiddenTunnelCommunity node; establish-rendezvous over the first and
+    link-e2e over the second make that node install a pair of rendezvous relay routes; then both ends are abandoned
+    without a destroy: the rendezvous point has to reclaim the linked pair through inactivity"""
+    from ipv8.messaging.anonymization.payload import EstablishRendezvousPayload, LinkE2EPayload
+    await world.build([False] + [True] * (spec["nodes"] - 1), hidden=tuple(range(1, spec["nodes"] + 1)))
+    meta = world.meta
+    B = meta["max_time_inactive"] + SWEEP_ALLOWANCE_S + meta["remove_tunnel_delay"]
+    t = odd(world.ticks() + 4)
+    await asyncio.sleep((t - world.ticks()) / TPS)
+    rp = next(p for p in world.ov(1).candidates if world.label_key(p.public_key.key_to_bin()) == 2)
+    c1 = world.create_circuit(1, spec["hops"], required_exit=rp)
+    await asyncio.sleep(8 / TPS)
+    c2 = world.create_circuit(1, spec["hops"], required_exit=rp)
+    await asyncio.sleep(32 / TPS)
+    if c1 is None or c2 is None or c1.state != "READY" or c2.state != "READY":
+        world.count("rendezvous:setup_incomplete")
+    else:
+        cookie = b"c" * 20
+        world.ov(1).send_cell(c1.hop.address, EstablishRendezvousPayload(c1.circuit_id, 11, cookie))
+        await asyncio.sleep(8 / TPS)
+        world.ov(1).send_cell(c2.hop.address, LinkE2EPayload(c2.circuit_id, 12, cookie))
+        await asyncio.sleep(8 / TPS)
+        world.count("rendezvous:linked_routes",
+                    sum(1 for r in world.ov(2).relay_from_to.values() if r.rendezvous_relay))
+    t = odd5(world.ticks() + 4)
+    await asyncio.sleep((t - world.ticks()) / TPS)
+    for c in (c1, c2):
+        if c is not None and c.circuit_id in world.ov(1).circuits:
+            world.remove_circuit(1, c.circuit_id, False)
+    now = world.ticks()
+    cp = now + ((2 - now) % 4)
+    end = cp + int(3 * B + 4) * TPS
+    while cp <= end:
+        await asyncio.sleep((cp - world.ticks()) / TPS)
+        world.checkpoint()
+        cp += TPS
+    return True, {"final": world.tables_empty()}
 
 
 async def run_race(world: World, spec):
@@ -1465,6 +1527,8 @@ def run_case(ctx: Ctx, spec, use_model: bool, kind="scenario"):
                     return await run_race(world, spec)
                 if kind == "swarm":
                     return await run_swarm(world, spec)
+                if kind == "rendezvous":
+                    return await run_rendezvous(world, spec)
                 return await run_scenario(world, spec)
             finally:
                 await world.shutdown()
@@ -1629,9 +1693,14 @@ def run_all(ctx: Ctx, n_random, use_model, with_exhaustive):
                 "bad_cands": [], "payload": "bt", "no_ipv6": False, "unsendable_exit": False}), use_model)
             idx += 1
         # teardown through HiddenTunnelCommunity.leave_swarm with a circuit of the swarm still extending
-        for hops, after, lose in ((1, 3 * TPS, True), (2, 3 * TPS, False), (3, 5 * TPS, True), (2, 4 * TPS, True)):
-            run_case(ctx, {"nodes": 5, "hops": hops, "leave_after": after, "lose_destroys": lose}, use_model,
-                     kind="swarm")
+        for hops, after, lose, want in ((1, 3 * TPS, True, False), (2, 3 * TPS, False, False), (3, 5 * TPS, True, True),
+                                        (2, 4 * TPS, True, True)):
+            run_case(ctx, {"nodes": 5, "hops": hops, "leave_after": after, "lose_destroys": lose,
+                           "members_wanting": want}, use_model, kind="swarm")
+        # a linked end-to-end circuit at a rendezvous point whose both ends vanish (oracle only: the model has no
+        # rendezvous linking)
+        for hops in (1, 2):
+            run_case(ctx, {"nodes": 4, "hops": hops}, False, kind="rendezvous")
         # a host without IPv6 (the "::" outside socket cannot be bound); an exit only known by host name
         for hops, td, extra in ((1, "o_destroy", {"no_ipv6": True}), (2, "o_abandon", {"no_ipv6": True}),
                                 (3, "exit_destroy", {"no_ipv6": True}), (2, "none", {"unsendable_exit": True}),
@@ -1686,8 +1755,8 @@ COVERAGE_FLOOR = [
     "fault:drop:", "fault:dup:", "fault:delay:", "wanting_node", "final_abandon",
     "originator_entry_already_reclaimed", "companions_alive_at_main_deadline", "companion:created",
     "age:circuit_still_ready_before_limit", "race:remove_now:", "race:destroy0:", "case:join", "case:early",
-    "join:limit=0", "join:limit=1", "join:limit=default", "extend_of_enabled_exit_socket", "swarm:leave:ready_state=READY:building_state=EXTENDING:destroys_lost",
-    "swarm:leave:ready_state=READY:building_state=EXTENDING:destroys_delivered", "swarm:intro_points_registered", "swarm:data_circuit_alive_at_deadline", "ipv6_bind_refused", "unsendable_exit",
+    "join:limit=0", "join:limit=1", "join:limit=default", "join:relay_entries_on_target", "extend_of_enabled_exit_socket", "swarm:leave:ready_state=READY:building_state=EXTENDING:destroys_lost",
+    "swarm:leave:ready_state=READY:building_state=EXTENDING:destroys_delivered", "swarm:intro_points_registered", "swarm_wanting_node", "rendezvous:linked_routes", "swarm:data_circuit_alive_at_deadline", "ipv6_bind_refused", "unsendable_exit",
     "hops:1", "hops:2", "hops:3", "phase:halfbuilt", "phase:ready", "phase:transfer", "obs_compared",
 ]
 
